@@ -39,6 +39,7 @@ func main() {
 	explain := flag.String("explain", "", "re-derive the finding recorded in the given violation file on the current tree")
 	list := flag.Bool("list", false, "list properties and rules")
 	manifest := flag.Bool("manifest", false, "print MANIFEST.json for the claimed properties")
+	jsonOut := flag.Bool("json", false, "with -rule: print the obligations as JSON")
 	emitKnown := flag.Bool("emit-known", false, "triage aid: print a known_findings.jsonl candidate line for every unlisted violation")
 	noKnown := flag.Bool("no-known", false, "debug: ignore known_findings.jsonl")
 	flag.Parse()
@@ -91,6 +92,19 @@ func main() {
 
 	if *rule != "" {
 		r := rules.Run(w, *rule)
+		if *jsonOut {
+			type out struct {
+				Error string      `json:"error,omitempty"`
+				Obs   []report.Ob `json:"obs"`
+			}
+			o := out{Obs: r.Obs}
+			if r.Err != nil {
+				o.Error = r.Err.Error()
+			}
+			b, _ := json.Marshal(o)
+			fmt.Println(string(b))
+			return
+		}
 		if r.Err != nil {
 			fmt.Println("ERROR:", r.Err)
 			os.Exit(2)
